@@ -145,7 +145,8 @@ def run(chk):
         lab, p = progs[i]
         f = cp.features(p)
         f["setx_in_setv_value"] = p[2][0] == "comp" and any(cp.has(c[2], "setx") for c in p[2][2] if c[0] == "setv")
-        own = {c[1] for c in (p[2][2] if p[2][0] == "comp" else p[2][1]) if c[0] in ("for", "setv")}
+        own = {n for c in (p[2][2] if p[2][0] == "comp" else p[2][1]) if c[0] in ("for", "setv")
+               for n in cp.target_names(c[1])}
         cl = p[2][2] if p[2][0] == "comp" else p[2][1]
         f["first_iterable_reads_own_name"] = bool(cl) and cl[0][0] == "for" and cp.reads(cl[0][2], own)
         r = res[pos]
